@@ -881,7 +881,7 @@ func (rn *runner) runProg(p *Prog, ck *checked, results map[int]*gmResult, r *vh
 				continue
 			}
 			for _, name := range qn {
-				if p.Hier.Shape == "deep" && k > 2 && !r.Chance(1, 6) {
+				if (p.Hier.Shape == "deep" || p.Hier.Shape == "diamond") && k > 2 && !r.Chance(1, 6) {
 					continue // towers: every name on the three top types (deepest paths), a sample elsewhere
 				}
 				rn.observe(ir, p, ck.pkg, k, name, nt, &ops, true)
@@ -965,6 +965,7 @@ func main() {
 		"(named types of identical struct layout: every struct has a unique tag field; (*T).m with value-receiver m). "+
 		"part 2: towers = 6..9 backbone structs each embedding the next (by value or pointer) next to 1..3 sibling structs (a third of them with an embedded child), names from the same small pools, values built completely: "+
 		"lookups of every name on the three top types (paths up to 9 levels) and a sample elsewhere, selector sites on names found >= 4 levels deep, assignment through a promoted field read back through the explicit path (selset, all hierarchies); "+
+		"part 2b: diamonds = a core struct (with a sub-core) reached from the top type through two different embedded fields at the same depth 2..4 (value or pointer embedding; every name of the core is ambiguous unless shadowed), a skewed type reaching the core at two depths and a lop-sided one (right chain one level longer): all names looked up on the three top types, selector sites as for towers; "+
 		"part 3: twin types = 2..3 named types per kind (struct with value or pointer receivers, slice, map, func, chan, array, int16, string) sharing one underlying type and all implementing Sh/error/fmt.Stringer: "+
 		"comma-ok and single-value assertions, classification through an interface parameter and type switches between twins (same reflect.Type, different identity), nil values included, tags Sh (interpreted), error, fmt.Stringer; "+
 		"classes gated on known_findings.json (generated once registered as fixed): comma-ok between basic-kind twins, basic-kind argument to an interface parameter. "+
@@ -1092,6 +1093,30 @@ func main() {
 		progs = append(progs, p)
 		checks = append(checks, nil)
 	}
+	// part 2b: diamonds (one type reached through two embedded fields at equal depth 2..4)
+	nDia := 6
+	if a.Thorough() {
+		nDia = 80
+	}
+	if a.Replay != "" {
+		nDia = 0
+	}
+	for i := 0; i < nDia; i++ {
+		r := rng.Fork()
+		h := genDiamondHier(r)
+		p := h.prog(fmt.Sprintf("m%04d", i))
+		ck := typecheck(p, false)
+		if len(ck.declErrs) > 0 || len(ck.siteErrs) > 0 {
+			fmt.Fprintf(os.Stderr, "generator bug: declarations of %s do not type-check: %v\n%s\n", p.Name, ck.declErrs, p.goSource("h", map[int]bool{}))
+			os.Exit(2)
+		}
+		g := &siteGen{p: p, h: h, pkg: ck.pkg, r: r, rep: rep}
+		rep.Dist("hierarchy:diamond")
+		g.selectorSites()
+		g.ifaceSites()
+		progs = append(progs, p)
+		checks = append(checks, nil)
+	}
 	for i := 0; i < nTwin; i++ {
 		p := genTwinProg(rng.Fork(), fmt.Sprintf("t%04d", i), topts)
 		ck := typecheck(p, false)
@@ -1166,7 +1191,7 @@ func main() {
 				rep.Fail(f)
 			}
 			rep.Dist("site:" + s.Kind)
-			nontriv := s.Kind != "selv" && s.Kind != "selp" || strings.Contains(s.Desc, "ambiguous") || (p.Hier != nil && p.Hier.Shape == "deep")
+			nontriv := s.Kind != "selv" && s.Kind != "selp" || strings.Contains(s.Desc, "ambiguous") || (p.Hier != nil && p.Hier.Shape != "")
 			rep.Count(string(hb)+s.Desc+s.Body, nontriv)
 			switch {
 			case goOK && !res.compiled:
